@@ -106,6 +106,17 @@ func judgeFinalizer(c *vs.Case, e *Env, t *SyncTrace, pre map[string]any, faultF
 		}
 		return nil
 	}
+	// a finalizer write answered 404 ("the parent is gone") ends the sync quietly: nothing may follow it
+	for i, r := range t.Reqs {
+		if r.Mutating() && r.Def.Resource == cfg.ParentResource && r.Subresource == "" && r.Code == 404 {
+			for _, later := range t.Reqs[i+1:] {
+				if later.Mutating() && later.Def.Resource != cfg.ParentResource {
+					return vs.Violf("C10/acted-after-finalizer-failure", "%s was answered 404, yet the sync went on with %s", r.String(), later.String())
+				}
+			}
+			return nil
+		}
+	}
 	// B. finalizer bookkeeping happens first
 	if conflictFired {
 		faultFired = true // a lost optimistic-lock race excuses "not done yet" (retried on the next event)
@@ -292,14 +303,19 @@ func PropC10(c *vs.Case, f Factory, kind string) error {
 		case 0: // sync, optionally with a fault on the finalizer write
 			env.W.SyncAll()
 			pre := env.Parent()
-			faultKind := c.Weighted(6, 1, 1)
+			// 1: 500 on the finalizer write, 2: one lost optimistic-lock race, 3: the race is lost on every
+			// retry, 4: the write is answered 404
+			faultKind := c.Weighted(6, 1, 1, 1, 1)
 			fired := false
 			if faultKind > 0 {
 				env.W.Sim.Before = func(r *vs.Request) *vs.Fault {
-					if !fired && r.Def.Resource == scn.Cfg.ParentResource && r.Verb == "update" && r.Subresource == "" {
+					if (!fired || faultKind == 3) && r.Def.Resource == scn.Cfg.ParentResource && r.Verb == "update" && r.Subresource == "" {
 						fired = true
 						if faultKind == 1 {
 							return &vs.Fault{Code: 500, Reason: "InternalError", Message: "injected"}
+						}
+						if faultKind == 4 {
+							return &vs.Fault{Code: 404, Reason: "NotFound", Message: "injected"}
 						}
 						// a real conflict: someone touches the parent right before the write
 						env.W.Sim.ExtUpdate(scn.Cfg.ParentResource, scn.ParentNS(), scn.ParentName(), func(o map[string]any) {
@@ -315,7 +331,10 @@ func PropC10(c *vs.Case, f Factory, kind string) error {
 			if t.Panic != "" {
 				return vs.Violf("C10/panic", "panic: %s", t.Panic)
 			}
-			if err := judgeFinalizer(c, env, t, pre, fired && faultKind == 1, fired && faultKind == 2); err != nil {
+			if fired {
+				c.Class("finalizer-write-fault-%d", faultKind)
+			}
+			if err := judgeFinalizer(c, env, t, pre, fired && (faultKind == 1 || faultKind == 4), fired && (faultKind == 2 || faultKind == 3)); err != nil {
 				return withTrace(err, t)
 			}
 		case 1: // relabel: match / unmatch the controller selector
